@@ -775,6 +775,25 @@ add({"name": "ViewFile_connect_drives", "file": "dfs/img_sdf.cc",
                (r"return storage->connect_drives\(drives, how\);", "return storage_connect_drives_model(how);", 1)],
      "dropped": ["the cause string of identify_file_system"]})
 
+# ---- stringutil.cc / dfs_catalog.cc (C15: names compare case-insensitively; a file is found by directory and name) ------
+add({"name": "ci_comp", "file": "dfs/stringutil.cc", "anchor": r"\[\]\(const unsigned char lhs,\s*const unsigned char rhs\)",
+     "sig": "static bool ci_comp(const unsigned char lhs, const unsigned char rhs)", "rules": [(r"\btolower\(", "tolower_chk(", ">=1")]})
+add({"name": "case_insensitive_less", "file": "dfs/stringutil.cc", "anchor": r"bool case_insensitive_less\(const string& left,\s*const string& right\)",
+     "sig": "static bool case_insensitive_less(const struct cstr *left, const struct cstr *right)",
+     "rules": [(r"auto comp =\s*\[\]\(const unsigned char lhs,\s*const unsigned char rhs\)\s*\{[^{}]*\};", "/* lambda comp: extracted separately (ci_comp) */", 1),
+               (r"const auto result = std::mismatch\(left\.cbegin\(\), left\.cend\(\),\s*right\.cbegin\(\), right\.cend\(\),\s*comp\);", "const struct mismatch_result result = mismatch_model(left, right);", 1),
+               (r"result\.second == right\.cend\(\)", "result.second == right->n", 1), (r"result\.first == left\.cend\(\)", "result.first == left->n", 1),
+               (r"\*result\.first", "CSTR_DEREF(left, result.first)", ">=1"), (r"\*result\.second", "CSTR_DEREF(right, result.second)", ">=1"),
+               (r"static_cast<unsigned char>\(", "(unsigned char)(", ">=0"), (r"\btolower\(", "tolower_chk(", ">=1")]})
+add({"name": "case_insensitive_equal", "file": "dfs/stringutil.cc", "anchor": r"bool case_insensitive_equal\(const string& left,\s*const string& right\)",
+     "sig": "static bool case_insensitive_equal(const struct cstr *left, const struct cstr *right)", "rules": []})
+add({"name": "CatalogEntry_has_name", "file": "dfs/dfs_catalog.cc", "anchor": r"bool CatalogEntry::has_name\(const ParsedFileName& wanted\) const",
+     "sig": "static bool CatalogEntry_has_name(const struct CatalogEntry *self, const struct ParsedFileNameM *wanted)",
+     "rules": [(r"#if VERBOSE_FOR_TESTS.*?#endif", "/* test-only diagnostics dropped */", ">=0"),
+               (r"wanted\.dir != directory\(\)", "wanted->dir != CatalogEntry_directory(self)", 1),
+               (r"const std::string trimmed_name\(stringutil::rtrim\(name\(\)\)\);", "const struct cstr trimmed_name = cstr_rtrim(CatalogEntry_name(self));", 1),
+               (r"stringutil::case_insensitive_equal\(wanted\.name, trimmed_name\)", "case_insensitive_equal(&wanted->name, &trimmed_name)", 1)]})
+
 # ---- fsp.cc (C15: `type`/`list`/`dump` find a file by :drive.dir.name): the directory/name split of parse_filename --------
 add({"name": "parse_dir_and_name", "file": "dfs/fsp.cc",
      "anchor": r"if \(name\.size\(\) [<>=!]+ \w+\)\s*\{\s*if \(name\[1\] == '\.'\)", "region_end": r"std::swap\(result, \*p\);",
